@@ -186,15 +186,22 @@ MEMBER_NAMES = {
 }
 
 
-def zip_with(member):
+def zip_with(member, isdir=False):
+    """an archive with one hostile member between two harmless ones; the member is a file or a bare directory entry
+    (name ending in '/': what zipstream emits for an empty directory)"""
     b = io.BytesIO()
     with zipfile.ZipFile(b, "w", zipfile.ZIP_DEFLATED) as z:
         zi = zipfile.ZipInfo("first.txt")
         zi.external_attr = 0o644 << 16
         z.writestr(zi, b"first")
-        zi = zipfile.ZipInfo(member)
-        zi.external_attr = 0o644 << 16
-        z.writestr(zi, b"member payload")
+        if isdir:
+            zi = zipfile.ZipInfo(member.rstrip("/") + "/")
+            zi.external_attr = (0o40755 << 16) | 0x10
+            z.writestr(zi, b"")
+        else:
+            zi = zipfile.ZipInfo(member)
+            zi.external_attr = 0o644 << 16
+            z.writestr(zi, b"member payload")
         zi = zipfile.ZipInfo("last.txt")
         zi.external_attr = 0o644 << 16
         z.writestr(zi, b"last")
@@ -235,12 +242,13 @@ def run(prop, tier):
             base_case = {"mode": "directory", "base": "plain", "decor": "none", "out": "unset", "accept": True, "pre": "none", "pretmp": False}
             for (_, mc, verdict) in members:
                 for out in ("unset", "dir"):
-                    tid += 1
-                    c = dict(base_case, out=out)
-                    dec = {"result": "written", "dest": "cwd/base" if out == "unset" else "out/base", "replaces": False}
-                    obs = execute(root, c, dec, "tree", members=zip_with(MEMBER_NAMES[mc](root)))
-                    obs.update({"tid": tid, "case": dict(c, member=mc), "expect": dict(dec, member=verdict), "kind": "member"})
-                    records.append(obs)
+                    for isdir in (False, True):
+                        tid += 1
+                        c = dict(base_case, out=out)
+                        dec = {"result": "written", "dest": "cwd/base" if out == "unset" else "out/base", "replaces": False}
+                        obs = execute(root, c, dec, "tree", members=zip_with(MEMBER_NAMES[mc](root), isdir))
+                        obs.update({"tid": tid, "case": dict(c, member=mc + ("/" if isdir else "")), "expect": dict(dec, member=verdict), "kind": "member"})
+                        records.append(obs)
         finally:
             shutil.rmtree(os.path.join(common.OUT, "sbx_c05_%d" % os.getpid()), ignore_errors=True)
         path = wd.file("obs.ndjson")
